@@ -142,7 +142,7 @@ def run(ctx):
         "mutated_trees_and_byte_cases": summ.get("cases", 0),
         "distinct_nontrivial": summ.get("nontrivial", 0),
         "rule": "evaluation = one guarded LoadNetwork call on one input (encoding, bytes). Inputs: valid saves of generated "
-                "networks mutated at the protobuf-tree level by 1-3 of 21 mutation kinds and written in wire, JSON and text; "
+                "networks mutated at the protobuf-tree level by 1-3 of 26 mutation kinds (incl. huge size / count fields alone and jointly, loaded in memory-limited one-shot children) and written in wire, JSON and text; "
                 "byte/character-level mutants of valid saves per encoding; random byte strings; the empty input. "
                 "non-trivial = distinct input that the decoder accepts (it reaches the loader proper and is also run through "
                 "the Coq loader model)",
